@@ -149,7 +149,9 @@ func (its *PushPullHandler) finalize() {
 
 			newCtx := its.ctx.CloneWithNewEmoji(constants.TagPostPushPull)
 
+			verifhook.Yield("server.postpush.spawn")
 			go func() {
+				defer verifhook.Yield("server.postpush.done")
 				defer its.recoveryFromPanic()
 				if err := its.sendNotification(newCtx); err == nil {
 					// continue
